@@ -1691,7 +1691,7 @@ size_t StringReader::pread(size_t offset, void* data, size_t size) const {
 }
 
 void StringReader::preadx(size_t offset, void* data, size_t size) const {
-  if ((offset >= this->length) || (offset + size > this->length)) {
+  if (offset + size > this->length) {
     throw out_of_range("not enough data to read");
   }
   memcpy(data, this->data + offset, size);
